@@ -1,13 +1,78 @@
 /-
   C05 — values cross the host boundary unchanged.
 
-  Statements are over the *generated* tables (`Gen.BoundaryTables`, regenerated
-  from the Rust sources on every run) interpreted by `Model/Boundary.lean`.
+  Every statement is over the *generated* tables (`Gen.BoundaryTables`,
+  regenerated from the Rust sources on every run: layout arithmetic, enum
+  tables, declaration orders, `AsParam` kinds, `lower_type` steps, slot orders,
+  hard-coded discriminants) interpreted by `Model/Boundary.lean`; the Rust side
+  (`rustLayout`, `rustSig`, `rustTrampoline`) is the Rust reference's
+  `#[repr(u8)]` rule and the platform C ABI, written independently.
+
+  `HostLayouts` (layouts of `char`, `RotoString`, `IpAddr`, `Prefix`,
+  `ErasedList`, which both sides take from `Layout::of::<T>()`) and the layouts
+  of registered types are universally quantified over well-formed layouts
+  (alignment a power of two dividing the size — `Layout::new`'s assertions).
 -/
-import RotoV.Model.Boundary
+import RotoV.Lemmas.BoundaryAbi
+import RotoV.Lemmas.BoundaryValues
 
 namespace RotoV.C05
 open RotoV RotoV.Boundary RotoV.Gen.BoundaryTables
+
+/-! ## T1 — layouts -/
+
+/-- **T1 `enum_layout_matches_repr_u8`** (∀ variant lists, ∀ payload layouts).  Roto's
+    `layout_of` of an enum — per variant a `LayoutBuilder` fed with the `u8` tag and the fields,
+    `finish`ed, the variants folded with the re-rounding `Layout::union` — is the layout the Rust
+    reference prescribes for a `#[repr(u8)]` enum: `align = max` over all fields and the tag,
+    `size =` the largest `repr(C)` struct `(u8, fields…)` rounded up to that alignment. -/
+theorem enum_layout_matches_repr_u8 (vs : List (List Layout)) (hne : vs ≠ [])
+    (hwf : ∀ fs ∈ vs, ∀ l ∈ fs, l.WF) :
+    rotoEnumLayout vs = some (reprU8 vs) :=
+  rotoEnumLayout_eq_reprU8 vs hne hwf
+
+/-- non-vacuity: `Option<u128-aligned 16 bytes>` next to a unit variant — 32 bytes, align 16 -/
+example : rotoEnumLayout [[⟨16, 16⟩], []] = some ⟨32, 16⟩ ∧ reprU8 [[⟨16, 16⟩], []] = ⟨32, 16⟩ := by decide
+
+/-- the hypothesis `WF` is necessary: with an alignment that is not a power of two the pairwise,
+    re-rounding union differs from rounding once (a 3-aligned field after a 2-aligned one:
+    6 bytes against 3). -/
+example : rotoEnumLayout [[⟨2, 1⟩], [⟨0, 2⟩], [⟨0, 3⟩]] = some ⟨6, 3⟩
+    ∧ reprU8 [[⟨2, 1⟩], [⟨0, 2⟩], [⟨0, 3⟩]] = ⟨3, 3⟩ := by decide
+
+/-- **T1 on types `layout_agrees`** (∀ boundary types, any nesting).  `Pool::layout_of` of the MIR
+    type of a boundary type is rustc's layout of its transformed Rust type. -/
+theorem layout_agrees (h : HostLayouts) (hh : h.WF) (t : BTy) (ht : t.WF) :
+    rotoLayout h t = some (rustLayout h t) :=
+  layout_agrees' h hh t ht
+
+/-- non-vacuity: `Result<Option<u16>, String>` on x86-64 is 24 bytes on both sides -/
+example : rotoLayout .x64 (.result (.option (.prim (.Int .Unsigned .I16))) (.prim .String)) = some ⟨24, 8⟩ := by
+  decide
+
+/-! ## T2 — `ffi::list_get` -/
+
+/-- **T2 `list_get_offset`.**  The offset `1usize.next_multiple_of(alignment)` at which
+    `ffi::list_get` writes the element into its `out: *mut RotoOption<T>` is the offset at which Roto
+    places the field of `Some` (`VariantField("Some", 0)`: tag, then the field), and is the payload
+    offset of the `#[repr(u8)]` mirror — for every element layout. -/
+theorem list_get_offset (l : Layout) (hl : 0 < l.align) :
+    listGetOffset l.align = (LayoutBuilder.add tagBuilder l).2
+    ∧ listGetOffset l.align = payloadOffset l := by
+  constructor
+  · simp [listGetOffset, LayoutBuilder.add, tagBuilder_eq]
+  · simp [listGetOffset, payloadOffset, nextMultipleOf_eq_roundUp _ _ hl]
+
+/-- … and on types: the `Some` field of `Option[T]` as `Lowerer::location` addresses it. -/
+theorem list_get_offset_typed (h : HostLayouts) (hh : h.WF) (t : BTy) (ht : t.WF) :
+    variantFieldOffset h [toMTy t] 0 = some (listGetOffset (rustLayout h t).align) := by
+  have hl := layout_agrees' h hh t ht
+  simp [variantFieldOffset, addFields, hl, LayoutBuilder.add, listGetOffset, LayoutBuilder.new, enumTagLayout,
+    Layout.new, nextMultipleOf]
+
+example : listGetOffset 8 = 8 ∧ listGetOffset 1 = 1 ∧ listGetOffset 16 = 16 := by decide
+
+/-! ## T3 — variant order and discriminants -/
 
 /-- **T3 `variant_order_agrees`.**  The three mirror enums are `#[repr(u8)]`; their declaration
     order (names *and* payload parameters) is the order of `default_types()`; and every place that
@@ -28,15 +93,103 @@ theorem variant_order_agrees :
     ∧ listGetProvisional = listGetNone := by
   decide
 
-/-- non-vacuity: the tables are not empty and the two views name the same variant at each
-    discriminant. -/
 example : nameAt rotoOptionVariants 0 = some .Some ∧ nameAt defaultOption 1 = some .None := by decide
 
-/-- **Refutation on the pinned tree (T5 is false there).**  With the compiler-side decisions as
+/-! ## T4 — values -/
+
+/-- **T4 `roundtrip`** (∀ values of the boundary grammar: any nesting, any list length).
+    `transform` succeeds, `untransform (transform v) = v`, and the script — which reads the same
+    bytes with the `default_types()` tables — sees `v` as well (constructing or matching
+    `Option`/`Result`/`Verdict` in the script agrees with Rust's view). -/
+theorem roundtrip (v : RVal) (sh : Shape) (hs : v.hasShape sh = true) :
+    ∃ t, transform v = some t ∧ untransform sh t = some v ∧ scriptView sh t = some v := by
+  obtain ⟨t, h1, h2⟩ := decode_transform rustTables goodTables_rust v sh hs
+  obtain ⟨t', h1', h2'⟩ := decode_transform scriptTables goodTables_script v sh hs
+  rw [h1] at h1'; cases h1'
+  exact ⟨t, h1, h2, h2'⟩
+
+/-- non-vacuity: `Some(Err(()))` is tag 0 around tag 1 and comes back on both sides -/
+example : (RVal.some (.err .unit)).hasShape (.option (.result .leaf .unit)) = true
+    ∧ transform (.some (.err .unit)) = some (.tagged 0 (some (.tagged 1 (some .unit)))) :=
+  ⟨by simp [RVal.hasShape], rfl⟩
+
+/-- what the theorem excludes: were `RotoOption` declared `None` first, the script would read
+    Rust's `Some(x)` as the other variant. -/
+example : decode (fun _ => [(.None, []), (.Some, [0])]) (.option .leaf) (.tagged 0 none) = some .none := rfl
+
+/-! ## T5 — calling conventions -/
+
+/-- **T5 `abi_agree`** (∀ boundary signatures of any arity, ∀ host layouts, ∀ registered layouts —
+    zero-sized ones included).  The Cranelift signature Roto declares for a script function (hidden
+    return pointer iff `is_reference_type`, context pointer, then the parameters whose `lower_type`
+    is `Some`, each in its Cranelift class) is the `extern "C"` type `RotoFunc::invoke` calls
+    through for the `return_by_ref` flag Roto hands out (`AsParam` of every argument: scalars by
+    value, `()` not at all, everything else a pointer; `Transformed` returned in a register only
+    without return pointer). -/
+theorem abi_agree (h : HostLayouts) (hh : h.WF) (s : BSig) (hp : ∀ p ∈ s.params, p.WF) (hr : s.ret.WF) :
+    ∃ a rptr, rotoSig Cfg.current h s = .ok (a, rptr) ∧ rustSig h s rptr = .ok a := by
+  have hk := keepArgs_boundary h hh s.params hp
+  have hret := returnRule_boundary h hh s.ret hr
+  have hcur : Cfg.current.sigFilter = .lowerType := rfl
+  have hroto : rotoSig Cfg.current h s
+      = .ok (⟨declareSlots.flatMap (slotTypes (retByRef s.ret) sigContext ((s.params.filterMap paramIr).map craneliftType)),
+              (retIr s.ret).map craneliftType⟩, retByRef s.ret) := by
+    simp only [rotoSig, hcur, hk, hret]
+  refine ⟨_, _, hroto, ?_⟩
+  simp only [rustSig, asParamAbis_boundary]
+  cases hb : retByRef s.ret
+  · simp [transformedRetAbi_boundary h hh s.ret hb, declareSlots, rustWithoutReturnPointer, slotTypes, sigContext,
+      rustWithoutReturnPointerRet]
+  · have : retIr s.ret = none := by
+      cases hs : s.ret with
+      | prim p => simp [hs, retByRef] at hb; simp [retIr, hb]
+      | unit => simp [hs, retByRef] at hb
+      | _ => rfl
+    simp [declareSlots, rustWithReturnPointer, slotTypes, sigContext, this]
+
+/-- non-vacuity, and the witness of the defect on the pinned tree now agreeing:
+    `fn(Val<Z>, i32) -> i32` with a zero-sized `Z`. -/
+example :
+    let s : BSig := ⟨[.val ⟨0, 1⟩, .prim (.Int .Signed .I32)], .prim (.Int .Signed .I32)⟩
+    rotoSig Cfg.current .x64 s = .ok (⟨[.I64, .I64, .I32], some .I32⟩, false)
+    ∧ rustSig .x64 s false = .ok ⟨[.I64, .I64, .I32], some .I32⟩ := by decide
+
+/-- **T5, script → Rust `runtime_call_agree`.**  What `call_runtime` and the `CallRuntime`
+    instruction pass to a registered function (closure address, out pointer, arguments whose
+    `lower_type` is `Some`) is the `extern "C"` type of its `registerable_fn!` trampoline. -/
+theorem runtime_call_agree (h : HostLayouts) (hh : h.WF) (s : BSig) (hp : ∀ p ∈ s.params, p.WF) :
+    ∃ a, rotoRuntimeCall Cfg.current h s = .ok a ∧ rustTrampoline s = .ok a := by
+  have hk := keepArgs_boundary h hh s.params hp
+  have hcur : Cfg.current.callRuntimeFilter = .lowerType := rfl
+  have hroto : rotoRuntimeCall Cfg.current h s
+      = .ok ⟨(callRuntimePrefix ++ callRuntimeSlots).flatMap
+              (slotTypes true false ((s.params.filterMap paramIr).map craneliftType)), none⟩ := by
+    simp only [rotoRuntimeCall, hcur, hk]
+  refine ⟨_, hroto, ?_⟩
+  simp [rustTrampoline, asParamAbis_boundary, callRuntimePrefix, callRuntimeSlots, trampolineSlots, slotTypes]
+
+/-- **T5, script → script `call_site_agree`.**  A call site inside a script passes exactly what
+    the callee declares (both filter zero-sized arguments with the same predicate). -/
+theorem call_site_agree (h : HostLayouts) (hh : h.WF) (s : BSig) (hp : ∀ p ∈ s.params, p.WF) (hr : s.ret.WF) :
+    ∃ a rptr, rotoSig Cfg.current h s = .ok (a, rptr) ∧ rotoCallSite Cfg.current h s = .ok a := by
+  have hk := keepArgs_boundary h hh s.params hp
+  have hret := returnRule_boundary h hh s.ret hr
+  have h1 : Cfg.current.sigFilter = .lowerType := rfl
+  have h2 : Cfg.current.callFilter = .lowerType := rfl
+  have hroto : rotoSig Cfg.current h s
+      = .ok (⟨declareSlots.flatMap (slotTypes (retByRef s.ret) sigContext ((s.params.filterMap paramIr).map craneliftType)),
+              (retIr s.ret).map craneliftType⟩, retByRef s.ret) := by
+    simp only [rotoSig, h1, hk, hret]
+  refine ⟨_, _, hroto, ?_⟩
+  simp only [rotoCallSite, h2, hk, hret]
+  rfl
+
+/-- **Refutation on the pinned tree (T5 was false there).**  With the compiler-side decisions as
     pinned, the signature `fn(Val<Z>, i32) -> i32` with a zero-sized registered `Z` is declared by
     Roto with *one* visible parameter, while `RotoFunc::invoke` calls through an `extern "C"` type
     with *two* (a pointer for `Val<Z>`): the `i32` is read from the wrong register.  The same
-    happens when a script calls a registered `fn(Val<Z>, i32)`. -/
+    happens when a script calls a registered `fn(Val<Z>, i32)`.  Replayed on the real code by the
+    harness (`value-changed:… zero-sized parameter`), repaired by `fix:` commit 0b0d33a. -/
 theorem abi_disagrees_when_pinned :
     let s : BSig := ⟨[.val ⟨0, 1⟩, .prim (.Int .Signed .I32)], .prim (.Int .Signed .I32)⟩
     rotoSig Cfg.pinned HostLayouts.x64 s = .ok (⟨[.I64, .I32], some .I32⟩, false)
